@@ -137,12 +137,10 @@ func (e *OpEngine) concreteFallback(err error, run func() error) error {
 	if e.concreteSizes || !fallbackWorthy(err) {
 		return err
 	}
-	attempts := []bool{needsData(err)}
-	if !attempts[0] {
-		attempts = append(attempts, true)
-	}
+	// pinned sizes alone often suffice (a size-dependent fast path becomes infeasible); labelled data only if
+	// element data still stops the interpretation
 	cur := err
-	for _, withData := range attempts {
+	for _, withData := range []bool{false, true} {
 		if withData && !needsData(cur) {
 			break
 		}
@@ -157,6 +155,9 @@ func (e *OpEngine) concreteFallback(err error, run func() error) error {
 		if err2 == nil {
 			e.ConcreteFallbacks++
 			return nil
+		}
+		if os.Getenv("QVERIF_DEBUG") != "" {
+			fmt.Fprintf(os.Stderr, "DBG fallback(withData=%v) failed: %v\n", withData, err2)
 		}
 		// this attempt could not follow the code either: drop what it added
 		e.Findings = e.Findings[:before]
